@@ -15,7 +15,8 @@ class GuestDisk:
     """size + unit map -> guest-visible bytes.  units: list of HOLE/ZERO/DATA (or per-sector lists via `sector_map`)."""
 
     def __init__(self, size: int, unit: int, units: list, layer: int = 1, parent: "GuestDisk | None" = None,
-                 sector_map: dict | None = None, sector_size: int = SECTOR, unit_layers: dict | None = None):
+                 sector_map: dict | None = None, sector_size: int = SECTOR, unit_layers: dict | None = None,
+                 unit_bytes: dict | None = None):
         self.size = size
         self.unit = unit
         self.units = units
@@ -24,6 +25,7 @@ class GuestDisk:
         self.sector_map = sector_map or {}  # unit index -> list of HOLE/ZERO/DATA per sector (sub-unit granularity)
         self.sector_size = sector_size
         self.unit_layers = unit_layers or {}  # unit index -> pattern layer of that unit's data (default self.layer)
+        self.unit_bytes = unit_bytes or {}  # unit index -> explicit content of that (DATA) unit
         self._cache = None
 
     def _state_at(self, off: int):
@@ -50,7 +52,10 @@ class GuestDisk:
             st, gran = self._state_at(pos)
             stop = min(end, (pos // gran + 1) * gran)
             ln = stop - pos
-            if st == DATA:
+            if st == DATA and (pos // self.unit) in self.unit_bytes:
+                u = pos // self.unit
+                out.append(self.unit_bytes[u][pos - u * self.unit: pos - u * self.unit + ln])
+            elif st == DATA:
                 out.append(pattern.span(self.unit_layers.get(pos // self.unit, self.layer), pos, ln))
             elif st == ZERO:
                 out.append(b"\0" * ln)
